@@ -350,8 +350,8 @@ theorem foldl_xmlns (o : Opts) (m : Mapper) (f : Facts) (l : List (String × J))
     exact ih a (fun kv hkv => h kv (by simp [hkv]))
 
 theorem foldl_attrs (o : Opts) (m : Mapper) (f : Facts) (p : String) (l : List (String × J)) (a : Acc)
-    (h : ∀ kv ∈ l, classify o (p ++ m.mp kv.1) = .attr (m.mp kv.1)) (hum : ∀ kv ∈ l, m.umA (m.mp kv.1) = kv.1) :
-    (l.map fun kv => (p ++ m.mp kv.1, kv.2)).foldl (encStep o m f) a = { a with attrs := dictUpdate a.attrs l } := by
+    (h : ∀ kv ∈ l, classify o (p ++ m.mpA kv.1) = .attr (m.mpA kv.1)) (hum : ∀ kv ∈ l, m.umA (m.mpA kv.1) = kv.1) :
+    (l.map fun kv => (p ++ m.mpA kv.1, kv.2)).foldl (encStep o m f) a = { a with attrs := dictUpdate a.attrs l } := by
   induction l generalizing a with
   | nil => rfl
   | cons x l ih =>
@@ -364,12 +364,12 @@ theorem foldl_attrs (o : Opts) (m : Mapper) (f : Facts) (p : String) (l : List (
 /-- what `element_decode` may be given (one level) for the round trip to hold: the guards of
     `default_roundtrip_partial` -/
 structure WF1 {α : Type} (o : Opts) (m : Mapper) (f : Facts) (hd : Hd) (its : List (Item α)) : Prop where
-  attrsUm : ∀ kv ∈ hd.attrs, m.umA (m.mp kv.1) = kv.1
+  attrsUm : ∀ kv ∈ hd.attrs, m.umA (m.mpA kv.1) = kv.1
   attrsNodup' : (hd.attrs.map (·.1)).Nodup
   /-- attributes are dropped when `attr_prefix is None` -/
   attrPre : hd.attrs ≠ [] → o.attrPrefix.isSome = true
   /-- no key collisions: an attribute key is read back as that attribute … -/
-  attrClass : ∀ p, o.attrPrefix = some p → ∀ kv ∈ hd.attrs, classify o (p ++ m.mp kv.1) = .attr (m.mp kv.1)
+  attrClass : ∀ p, o.attrPrefix = some p → ∀ kv ∈ hd.attrs, classify o (p ++ m.mpA kv.1) = .attr (m.mpA kv.1)
   attrsNodup : ((mapAttrs o m hd).map (·.1)).Nodup
   xmlnsNodup : ((xmlnsEntries (pre o) hd.xmlns).map (·.1)).Nodup
   /-- … a namespace declaration key as a declaration … -/
